@@ -125,6 +125,81 @@ func whenInfo(ev tcell.Event) (t time.Time, panicked bool) {
 
 // ------------------------------------------------------------------ C05
 
+// pipeChannelQuit: ChannelEvents forwards a few posted events, then quit is closed while the forwarder is idle.
+func pipeChannelQuit(l *pipeLog, rng *rand.Rand) error {
+	s, tty, err := newLiveScreen("xterm-256color", 20, 5)
+	if err != nil {
+		return err
+	}
+	defer releaseTty(tty)
+	for idle := 0; idle < 3; { // the initial resize event
+		if s.HasPendingEvent() {
+			s.PollEvent()
+			idle = 0
+		} else {
+			idle++
+			time.Sleep(2 * time.Millisecond)
+		}
+	}
+	ch := make(chan tcell.Event)
+	quit := make(chan struct{})
+	go s.ChannelEvents(ch, quit)
+	n := rng.Intn(4)
+	posted, forwarded := []int{}, []int{}
+	for i := 0; i < n; i++ {
+		if s.PostEvent(tcell.NewEventInterrupt(i)) == nil {
+			posted = append(posted, i)
+		}
+	}
+	for range posted {
+		select {
+		case ev, ok := <-ch:
+			if iv, isI := ev.(*tcell.EventInterrupt); ok && isI {
+				forwarded = append(forwarded, iv.Data().(int))
+			}
+		case <-time.After(2 * time.Second):
+		}
+	}
+	time.Sleep(time.Duration(5+rng.Intn(20)) * time.Millisecond)
+	close(quit)
+	closed, after := false, 0
+	deadline := time.After(time.Second)
+wait:
+	for {
+		select {
+		case _, ok := <-ch:
+			if !ok {
+				closed = true
+				break wait
+			}
+			after++
+		case <-deadline:
+			break wait
+		}
+	}
+	postOK := s.PostEvent(tcell.NewEventInterrupt(99)) == nil
+	polled := false
+	got := make(chan tcell.Event, 1)
+	go func() { got <- s.PollEvent() }()
+	select {
+	case ev := <-got:
+		if iv, ok := ev.(*tcell.EventInterrupt); ok && iv.Data() == 99 {
+			polled = true
+		}
+	case <-time.After(time.Second):
+	}
+	l.emit(trace.Ev{"ev": "ChanQuit", "posted": posted, "forwarded": forwarded, "closed": closed, "after_quit": after,
+		"post_ok": postOK, "polled": polled})
+	fin := make(chan struct{})
+	go func() { s.Fini(); close(fin) }()
+	select {
+	case <-fin:
+	case <-time.After(10 * time.Second):
+		l.emit(trace.Ev{"ev": "FiniHang"})
+	}
+	return nil
+}
+
 func pipeDelivery(l *pipeLog, rng *rand.Rand, nkeys, nposters, nposts int, useChannel bool) error {
 	s, tty, err := newLiveScreen("xterm-256color", 20, 5)
 	if err != nil {
@@ -613,6 +688,13 @@ func pipeMain(args []string) error {
 			}
 			hists++
 			ops += nk + np*nn
+		}
+		l.emit(trace.Ev{"ev": "Reset"})
+		for i := 0; i < 6; i++ {
+			if err := pipeChannelQuit(l, rng); err != nil {
+				return err
+			}
+			ops++
 		}
 		samples = append(samples, "120 sequence-numbered keys in chunks of 1-3, 2 posters x 40 PostEvent, poller with random pauses")
 	} else {
